@@ -32,10 +32,14 @@ theorem LowInv.closed (ts : Nat) : Closed (LowInv ts) where
     intro v w h _ _
     obtain ⟨dl, cl, dn⟩ := h
     constructor <;> simp only [View.consume] <;> grind
-  dealPush := by
+  rdeal := by
+    intro v h _
+    obtain ⟨dl, cl, dn⟩ := h
+    constructor <;> simp only [View.deal, View.setR] <;> grind
+  rpush := by
     intro v w h _
     obtain ⟨dl, cl, dn⟩ := h
-    constructor <;> simp only [View.deal, View.push] <;> split <;> grind
+    constructor <;> simp only [View.setR, View.push] <;> split <;> grind
   spawn := by
     intro v id h _ kind
     obtain ⟨dl, cl, dn⟩ := h
